@@ -5,6 +5,9 @@ HERE = os.path.dirname(os.path.dirname(os.path.abspath(__file__)))
 ALL = ["C%02d" % i for i in range(1, 21)]
 
 CHECKS = {
+ "C05": dict(cat="exploration", tech="twin-interpreter differential monitor: real compiler (instrumented, invocations counted) vs compile_expr stubbed to None by attribute assignment",
+   text="Generated expressions of the compilable grammar (depth<=3) in four evaluation positions, over bindings of every class and rebinding histories, on numpy and torch, are executed in a compiling interpreter and in a non-compiling twin and compared exactly; only cases where the compiled callable really ran count. Divergences are localised to one IR node by single-operator probes and matched against mechanism-keyed known findings.",
+   note="compile_expr is looked up as a module global at call time (a run with no compiled invocation is inconclusive); nested lists are exercised on numpy only (object arrays under torch).", ref="DESIGN.md §4 C05"),
  "C11": dict(cat="exploration", tech="runtime round-trip monitor at the public boundary (.w -> .rs -> ~, x:$$x) over a generated value universe",
    text="Every value of the closed universe (all atom kinds, hostile strings, extreme reals, nestings to depth 3, dictionaries) is driven through the real .w/.rs and Format/Form and judged by a round-trip oracle; held on the values observed, not a proof over all values.",
    note="CPython float repr round-trips; values are built with the backend's kg_asarray as the reader builds them; inf/nan outside the domain.", ref="DESIGN.md §4 C11"),
